@@ -108,9 +108,8 @@ def items(tier, seed):
             # one work item per base document: all 24 x 25 holes of <= 2 atoms
             out.append({'h': 'hole', 'b': bi, 'L': 2, 'first': -1, 'cost': 600, 'budget': 900})
         else:
-            L = 4 if kv else 3
             for first in range(len(SYNTAX)):
-                out.append({'h': 'hole', 'b': bi, 'L': L, 'first': first, 'cost': 24 ** (L - 1),
+                out.append({'h': 'hole', 'b': bi, 'L': 3, 'first': first, 'cost': 24 ** 2,
                             'budget': 3000})
     per = 3 if tier == 'quick' else 12
     for name, S, o in skeletons.malformed(seed + 5, per):
